@@ -2,6 +2,7 @@ import Complgen.Model.Hex
 import Complgen.Model.Quote
 import Complgen.Model.Pipeline
 import Complgen.Model.Parse
+import Complgen.Model.Dot
 import Complgen.Cert.Search
 import Complgen.Cert.Canon
 import Complgen.Cert.Det
@@ -187,6 +188,10 @@ def handle (line : String) : String :=
       let W := Spec.Complete.worldOf g sh (parseOutTable out)
       "ok " ++ " ; ".intercalate ((cls.splitOn ";").map (completeOne W))
     | _, _ => "bad-op"
+  | ["dot", h] =>
+    match Hex.decode h with
+    | some src => Dot.dumpText src
+    | none => "bad-op"
   | ["labels"] =>
     "ok " ++ " ".intercalate (Gen.diagLabels.map fun (k, v) => s!"{Hex.encode k}:{Hex.encode v}")
   | ["canon", a] =>
